@@ -134,6 +134,16 @@ CopyFrom(st, p, n, q) ==       \* p.<n> = q.<n> : the first repetition of q's n 
   LET r == Reps(st, q, n) IN
   IF n \notin Names \/ r = <<>> THEN {Rej(st)} ELSE SetRep(st, p, n, 0, st.val[r[1]])
 
+(* p.children = q.children : the child LIST of another element is assigned.  The children move (an element has one  *)
+(* parent): q is left without children, what p listed before is discarded.  Both parents have the same structure,    *)
+(* level and version here, so nothing q lists can be refused by p.  p = q changes nothing.                            *)
+Adopt(st, p, q) ==
+  IF p = q THEN {Ok(st)}
+  ELSE LET old == Range(st.kids[p])
+           RECURSIVE DropAll(_, _)
+           DropAll(s, os) == IF os = {} THEN s ELSE LET o == CHOOSE x \in os : TRUE IN DropAll(Drop(s, o), os \ {o})
+       IN {Ok(DropAll([st EXCEPT !.kids[p] = st.kids[q], !.kids[q] = <<>>], old))}
+
 NewFree(st, n, v, l) ==        \* the caller constructs a stand-alone element
   IF Free(st) = {} THEN {} ELSE {Ok([WithObj(st, Fresh(st), n, v, l) EXCEPT !.held = @ \cup {Fresh(st)}])}
 
@@ -158,6 +168,7 @@ Succ(st, o) ==
     [] o.op = "DelName"  -> DelRep(st, o.p, o.n, 0)
     [] o.op = "DelIdx"   -> DelRep(st, o.p, o.n, o.i)
     [] o.op = "CopyFrom" -> CopyFrom(st, o.p, o.n, o.q)
+    [] o.op = "Adopt"    -> Adopt(st, o.p, o.q)
     [] o.op = "NewFree"  -> NewFree(st, o.n, o.v, o.l)
     [] o.op = "Forget"   -> Forget(st, o.c)
     [] o.op = "SetVal"   -> SetVal(st, o.c, o.v)
